@@ -15,7 +15,10 @@ replay = F.replay
 
 
 def run(ctx, model_ok, deep=False):
+    p384 = K.gen_key("ec", "P-384", ctx.scratch)
     F.run_suites(ctx, model_ok, deep, [
+        ("ecdsa-volume", lambda w, p, t, r: S.ecdsa_volume_suite(w, p, t, r, [("p256", p.keys["p256"], "ES256"), ("p384", p384, "ES384")]), S.falsify_roundtrip,
+         "2500 (quick) / 12000 (thorough) ES256 and ES384 signatures made under GnuTLS and verified under OpenSSL, a fifth as many the other way round; every token also compared with the model and its signature checked by the independent verifier; short r / s counted in oracle_answers", False),
         ("roundtrip", S.roundtrip_suite, S.falsify_roundtrip,
          "per key x admissible alg: random header/claim JSON trees (nesting<=6, unicode, 64-bit extremes, reals, empty containers, 4 KiB strings), sign under openssl|gnutls, verify under openssl|gnutls with the public half, read header+claims in the checker callback; plus ECDSA volume runs", False),
     ])
